@@ -390,6 +390,32 @@ def conversions_contained(ctx):
             'fails with TypeError in the model validator', ctx.loc(vs))
 
 
+    # values of a definition are serialised by an encoder that takes what
+    # the YAML loader produces: a date / timestamp nested in a mapping
+    # passes the schemas (nested content is unconstrained) and makes the
+    # stdlib encoder raise TypeError
+    n_j = 0
+    for q, f in sorted(prog.funcs.items()):
+        if not (f.module.startswith('mistral.lang') or f.module in (
+                'mistral.services.adhoc_actions', 'mistral.services.workbooks',
+                'mistral.services.workflows', 'mistral.services.actions')):
+            continue
+        imp = prog.imports.get(f.module, {})
+        for c in own_nodes(f.node):
+            if isinstance(c, ast.Call) and isinstance(c.func, ast.Attribute) \
+                    and c.func.attr == 'dumps':
+                n_j += 1
+                root = (dotted(c.func.value) or '').split('.')[0]
+                r.check(imp.get(root) != 'json' or any(
+                    k.arg in ('default', 'cls') for k in c.keywords),
+                    ctx.construct(f, c, extra='encoder takes YAML values'),
+                    'a value of a definition is serialised with the stdlib '
+                    'json encoder without a `default`: a nested YAML date / '
+                    'timestamp is a TypeError', ctx.loc(f, c))
+    if n_j < 1:
+        raise AnalysisError('no serialisation of definition values found')
+
+
 def run(ctx):
     schema_memo_not_inherited(ctx)
     conversions_contained(ctx)
